@@ -10,7 +10,7 @@ import sys
 import time
 
 sys.path.insert(0, os.path.dirname(os.path.abspath(__file__)))
-from assemble import VERIF, Undecided, assemble_unit, run_extract  # noqa: E402
+from assemble import VERIF, Undecided, assemble_unit, run_extract, unit_items  # noqa: E402
 
 SEMANTIC = [
     ("postcondition not satisfied", "postcondition"),
@@ -185,9 +185,12 @@ def run_unit(unit, repo, outdir, seed=0, features=None, canary=True, rlimit=None
     t0 = time.time()
     tag = unit + "_" + "_".join(features)
     try:
-        ex = run_extract(repo, features, cfg["items"], outdir)
+        ex = run_extract(repo, features, unit_items(cfg, features), outdir)
         preludes = [os.path.join(VERIF, "prelude", p) for p in cfg["prelude"]]
-        A = assemble_unit(unit, ud, cfg, ex, preludes, canary=False)
+        for feat, extra in cfg.get("prelude_if", {}).items():
+            if feat in features:
+                preludes += [os.path.join(VERIF, "prelude", p) for p in extra]
+        A = assemble_unit(unit, ud, cfg, ex, preludes, canary=False, features=features)
         A.unit = unit
     except Undecided as u:
         res["undecided"].append(u.reason)
@@ -236,7 +239,7 @@ def run_unit(unit, repo, outdir, seed=0, features=None, canary=True, rlimit=None
     # canary run (vacuity)
     if canary and not res["undecided"]:
         try:
-            Ac = assemble_unit(unit, ud, cfg, ex, preludes, canary=True, extra_prelude_text="pub uninterp spec fn vx_canary(k: int) -> bool;")
+            Ac = assemble_unit(unit, ud, cfg, ex, preludes, canary=True, extra_prelude_text="pub uninterp spec fn vx_canary(k: int) -> bool;", features=features)
             Ac.unit = unit
             cpath = os.path.join(outdir, tag + "_canary.rs")
             open(cpath, "w").write(Ac.text())
